@@ -328,7 +328,10 @@ class Parser:
         # for macros without arguments, even if known
         # (a language token, e.g. at the end of \foreignlanguage{}{...},
         # ends the space following the macro name)
-        buf.skip_space(stop_lang=True)
+        # (an action token marks the place of something that has vanished,
+        # for instance the closing brace of an argument: space behind it
+        # does not follow the macro name)
+        buf.skip_space(stop_lang=True, stop_action=True)
         if tok.txt not in self.the_macros:
             if not (math or tok.txt in self.unknowns):
                 self.unknowns.append(tok.txt)
